@@ -142,6 +142,7 @@ Proof.
     destruct (entry_reply (do_lookup s parent n)) as [[rp0 io0] s0] eqn:He. inv4 H.
     rewrite (entry_reply_creds _ _ _ _ _ _ He). exact Hc.
   - inv4 H. rewrite forget_one_creds. exact Hc.
+  - inv4 H. revert s Hc. induction l as [|p l IH]; intros s Hc; cbn [fold_left]; [exact Hc|]. apply IH. rewrite forget_one_creds. exact Hc.
   - destruct (do_getattr cf s inode handle); inv4 H; exact Hc.
   - (* setattr *)
     destruct (assoc inode (p_inodes s)) as [d|]; [|inv4 H; exact Hc].
@@ -234,6 +235,7 @@ Proof.
       pose proof (get_data_creds _ _ _ _ _ _ _ _ Hg) as C1; [|inv4 H; rewrite C1; exact Hc].
     destruct (check_fd_flags s1 hid hd flags) as [hd' s2] eqn:Hf. pose proof (check_fd_flags_creds _ _ _ _ _ _ Hf) as C2.
     destruct (negb (acc_r (hd_acc hd'))); [inv4 H; rewrite C2, C1; exact Hc|].
+    destruct (hd_direct hd' && (0 <? size)); [inv4 H; rewrite C2, C1; exact Hc|].
     destruct (sys_pread (p_host s2) (hd_host hd') size off); inv4 H; rewrite C2, C1; exact Hc.
   - (* write *)
     destruct (get_data cf (c_no_open cf) s handle inode O_RDWR) as [[[hid hd]|e] s1] eqn:Hg;
@@ -243,6 +245,7 @@ Proof.
     assert (C3 : p_creds s3 = root_creds).
     { refine (with_killpriv_root _ _ _ _ _ _ _ Hw _); [|rewrite C2, C1; exact Hc].
       intros s0 r0 s4 Hb. apply keeps_both. destruct (negb (acc_w (hd_acc hd'))); [inversion Hb; subst; reflexivity|].
+      destruct (hd_direct hd' && (0 <? len data)); [inversion Hb; subst; reflexivity|].
       destruct (sys_pwrite (p_creds s0) (p_host s0) (hd_host hd') (hd_append hd') off data). inversion Hb; subst. reflexivity. }
     destruct r; inv4 H; exact C3.
   - destruct (assoc inode (p_inodes s)); [|inv4 H; exact Hc]. destruct (sys_readlink (p_host s) (id_host i)); inv4 H; exact Hc.
